@@ -248,6 +248,37 @@ impl<'tcx> Cx<'tcx> {
                 }
             }
         }
+        // a promoted of a generic function (`&SIZE` in a trait default method) cannot be evaluated for lack of concrete type
+        // arguments, but its body may just take the address of a constant that does not depend on them: `_1 = const K; _0 = &_1`
+        if let MirConst::Unevaluated(uv, _) = c {
+            if let Some(pidx) = uv.promoted {
+                if let ty::Ref(_, inner, _) = ty.kind() {
+                    if matches!(inner.kind(), ty::Int(_) | ty::Uint(_) | ty::Bool) {
+                        let bodies = tcx.promoted_mir(uv.def);
+                        if let Some(pb) = bodies.get(pidx) {
+                            for bbd in pb.basic_blocks.iter() {
+                                for st in bbd.statements.iter() {
+                                    if let mir::StatementKind::Assign(bx) = &st.kind {
+                                        if let Rvalue::Use(Operand::Constant(k), ..) = &bx.1 {
+                                            if let Some(si) = k.const_.try_eval_scalar_int(tcx, self.tenv) {
+                                                let j = scalar_json(si.to_bits_unchecked(), si.size().bytes(), *inner);
+                                                if let J::Obj(o) = j {
+                                                    let mut oo: Vec<(&str, J)> = vec![];
+                                                    for (kk, x) in o {
+                                                        if kk == "ty" { oo.push(("ty", x)); } else if kk == "val" { oo.push(("bits", x)); }
+                                                    }
+                                                    return J::obj(vec![("ty", J::s(ty_str(ty))), ("ref_const", J::obj(oo))]);
+                                                }
+                                            }
+                                        }
+                                    }
+                                }
+                            }
+                        }
+                    }
+                }
+            }
+        }
         J::obj(vec![("ty", J::s(ty_str(ty))), ("opaque", J::s(format!("{}", c)))])
     }
 
